@@ -140,6 +140,16 @@ def run_representatives(ctx, st):
             ctx.check('C19/text/representative-%d' % i, False, '%r raised %s: %s' % (text, type(e).__name__, e))
             continue
         ctx.check('C19/text/representative-%d' % i, dict(got) == want, '%r -> %r, expected %r' % (text, dict(got), want))
+        # what a caller does to the table it got does not reach a later parse of the same text
+        try:
+            got[0x2b5a0010] = 'BSC_read'
+            for k in list(got)[:1]:
+                got[k] = 'renamed'
+            again = tc.from_trace_codes_text(text)
+            ctx.check('C19/text/same-text-again-%d' % i, dict(again) == want, '%r parsed again -> %r' % (text, dict(again)))
+        except Exception as e:      # noqa
+            __import__('vxlib.symx.core', fromlist=['x']).proxy_rejected(e)
+            ctx.check('C19/text/same-text-again-%d' % i, False, '%s: %s' % (type(e).__name__, e))
     ctx.reach()
 
 
@@ -175,6 +185,20 @@ def run_decode_sequence(ctx, st):
     except Exception as ex:     # noqa
         __import__('vxlib.symx.core', fromlist=['x']).proxy_rejected(ex)
         ctx.check('C19/sequence/no-error', False, '%s: %s' % (type(ex).__name__, ex)); ctx.reach(); return
+    # an empty supplied table is a table: nothing is named, nothing is decoded
+    try:
+        pe = _parser(ctx)
+        for c in ('show_timestamp', 'show_func_qual', 'show_tid', 'show_process', 'show_args'):
+            setattr(pe, c, False)
+        # (records under an id the bundled table decodes: 0x40c0050 BSC_getpid)
+        brecs = [K.pack_rec(1001, [1, 2, 3, 4], 0x1d3, 0x40c0050 | 1), K.pack_rec(1002, [0, 0x41, 0, 0], 0x1d3, 0x40c0050 | 2)]
+        lines_e = list(pe.formatted_kevents(make_stream(K.v2_file([], 0, brecs[:1])), {}))
+        out_e = list(_parser(ctx).traces(make_stream(K.v2_file([], 0, brecs)), {}))
+    except Exception as ex:     # noqa
+        __import__('vxlib.symx.core', fromlist=['x']).proxy_rejected(ex)
+        ctx.check('C19/sequence/empty-table', False, '%s: %s' % (type(ex).__name__, ex)); ctx.reach(); return
+    ctx.check('C19/sequence/empty-table', len(out_e) == 0 and len(lines_e) == 1 and str(lines_e[0]).strip() == hex(0x40c0050),
+              'an empty supplied table was replaced: %d traces decoded, listing %r' % (len(out_e), lines_e[:1]))
     ctx.check('C19/sequence/first-table-honoured', len(out1) == 1 and type(out1[0]).__name__ == 'BscGetpid')
     ctx.check('C19/sequence/second-table-honoured', len(out2) == 0, 'an id absent from the second table was decoded (%d traces)' % len(out2))
     ctx.check('C19/sequence/listing-uses-the-table-given', len(lines) == 1 and not any(c.isalpha() and c not in 'abcdefx' for c in str(lines[0]).strip()) if not ctx.symbolic else len(lines) == 1,
